@@ -120,4 +120,31 @@ var targets = []Target{
 			"BinaryProtocol.WriteSetBegin",
 			"BinaryProtocol.ReadFieldBegin", "BinaryProtocol.ReadMapBegin", "BinaryProtocol.ReadListBegin", "BinaryProtocol.ReadSetBegin"},
 	},
+	{
+		// C03 / C18: tables of the portable JSON string quoting
+		Module: "Gen_rt",
+		Dir:    "internal/rt",
+		Mode:   "abs",
+		Tables: []string{"SafeSet", "Hex"},
+	},
+	{
+		// C02 / C03: JSON whitespace
+		Module: "Gen_json",
+		Dir:    "internal/json",
+		Mode:   "abs",
+		Consts: []string{"_blankCharsMask"},
+		Funcs:  []string{"IsSpace"},
+	},
+	{
+		// C18 / C03: the per-byte steps of the portable quoteString (internal/json/api_compat.go, excluded from amd64 builds)
+		Module:   "Gen_jsonportable",
+		Dir:      "internal/json",
+		GOARCH:   "arm64",
+		Mode:     "abs",
+		Requires: []string{"Gen_rt"},
+		Blocks: []Block{
+			{Func: "quoteString", Name: "quoteString_ascii", Anchor: "b < utf8.RuneSelf"},
+			{Func: "quoteString", Name: "quoteString_linesep", Anchor: "c == '\\u2028' || c == '\\u2029'"},
+		},
+	},
 }
